@@ -6,7 +6,11 @@ Monitors
   itself while building, copying or re-ordering - the touched composite must list each child once and be its parent;
 * a shadow model (plain lists of objects maintained by the harness from the intended effect of each operation);
 * a traversal oracle: a 12-line recursive walk that only uses ``list(node)``;
-* copy/pickle isolation: identity-disjoint node sets, internal back pointers stay inside the copy.
+* copy/pickle isolation: identity-disjoint node sets, internal back pointers stay inside the copy; every child whose locator lived
+  in its parent's grid (also each sub-location of a multi-location) lives in the copy's grid afterwards;
+* independent references for filtered queries: flag matches are recomputed from the integer bit patterns of the stored flags, type
+  names from the name the harness (or the generated blueprint) gave the object at construction;
+* discharge into the spent fuel pool is a MOVE in the shadow model (half the reactors track their assemblies).
 Judged domain: valid-usage histories (DESIGN.md section 3): add/insert receive detached objects, remove receives a child.
 """
 import copy
@@ -19,20 +23,29 @@ RULE = (
     "four tree families built from real classes (generic Composite trees with grids; HexBlocks of components; HexAssemblies of blocks; "
     "reactors from generated blueprints) x histories of 10-80 operations from {add, insert, remove, re-add elsewhere, removeAll, setChildren "
     "(permutation/subset/new), sort, reestablishBlockOrder, replaceBlockWithBlock, deepcopy, pickle round trip, then edit both}; after every "
-    "operation the global invariants, the shadow model and 3 random traversal queries are judged. distinct = (family, operation, query kind, "
+    "operation the global invariants, the shadow model and 3 random traversal queries are judged. Blocks get a pin grid (HexBlock."
+    "autoCreateSpatialGrids / Assembly.orientBlocks: multi-index locators for mult>1 components) in ~70% of the block/assembly cases and always "
+    "where armi's Core.add makes one; half the reactors are built with trackAssems so that discharge moves the assembly into the spent fuel "
+    "pool; core and pool child order is judged (insertion order; K,J,I order after sort). distinct = (family, operation, query kind, "
     "tree shape signature); non-trivial = tree has >= 3 nodes."
 )
-FLOORS = {"quick": {"invariant.global": 3000, "shadow": 2500, "traversal": 6000, "copy.isolation": 300, "hook:Composite.add": 2000, "hook:Composite.remove": 500, "hook:ArmiObject.__setstate__": 500},
-          "thorough": {"invariant.global": 60000, "shadow": 50000, "traversal": 120000, "copy.isolation": 6000, "hook:Composite.add": 40000, "hook:Composite.remove": 10000, "hook:ArmiObject.__setstate__": 10000}}
+FLOORS = {"quick": {"invariant.global": 3000, "shadow": 2500, "traversal": 6000, "copy.isolation": 300, "hook:Composite.add": 2000, "hook:Composite.remove": 500, "hook:ArmiObject.__setstate__": 500,
+                    "ancestor.flags": 1000, "ancestor.flags-exactness-decides-above-self": 15, "flags.query-selects-proper-subset": 150, "type.query-by-construction-name": 300,
+                    "copy.locator-relinked": 1500, "copy.multi-location-relinked": 600, "copy.reactor-links": 8, "detached.multi-location": 2500,
+                    "core.order": 120, "discharge.move-to-sfp": 10, "sort.order-by-location": 300},
+          "thorough": {"invariant.global": 60000, "shadow": 50000, "traversal": 120000, "copy.isolation": 6000, "hook:Composite.add": 40000, "hook:Composite.remove": 10000, "hook:ArmiObject.__setstate__": 10000,
+                       "ancestor.flags": 20000, "ancestor.flags-exactness-decides-above-self": 300, "flags.query-selects-proper-subset": 3000, "type.query-by-construction-name": 5000,
+                       "copy.locator-relinked": 12000, "copy.multi-location-relinked": 5000, "copy.reactor-links": 50, "detached.multi-location": 50000,
+                       "core.order": 800, "discharge.move-to-sfp": 70, "sort.order-by-location": 6000}}
 REC = [None]
 
 
 def plan(tier, seed):
     q = tier == "quick"
-    out = [{"name": "gen%d" % i, "family": "generic", "n": 40 if q else 800, "ops": 50} for i in range(5)]
+    out = [{"name": "gen%d" % i, "family": "generic", "n": 50 if q else 1000, "ops": 50} for i in range(4)]
     out += [{"name": "blk%d" % i, "family": "block", "n": 25 if q else 500, "ops": 30} for i in range(4)]
     out += [{"name": "asm%d" % i, "family": "assembly", "n": 12 if q else 250, "ops": 30} for i in range(4)]
-    out += [{"name": "core%d" % i, "family": "core", "n": 3 if q else 50, "ops": 25} for i in range(3)]
+    out += [{"name": "core%d" % i, "family": "core", "n": 8 if q else 60, "ops": 30} for i in range(4)]
     return out
 
 
@@ -146,9 +159,84 @@ def check_global(rec, roots, detached, w):
         loc = d.spatialLocator
         if loc is not None and getattr(loc, "grid", None) is not None:
             rec.violation("tree/removed-object-keeps-grid-location", "removed object %r still holds a locator in grid of %r" % (d, loc.grid.armiObject), w)
+        subs = sub_locations(loc)
+        if subs:
+            # a multi-index locator is "mostly just a list of IndexLocation objects": the removed object is detached only if
+            # none of the places it occupies is still a cell of somebody's grid
+            rec.hit("detached.multi-location")
+            held = [s_ for s_ in subs if getattr(s_, "grid", None) is not None]
+            if held:
+                rec.violation("tree/removed-object-keeps-grid-location/multi-sub-locations",
+                              "removed object %r has a detached multi-index locator, but %d of its %d sub-locations are still cells of the grid of %r"
+                              % (d, len(held), len(subs), held[0].grid.armiObject), w)
     return seen
 
 
+def sub_locations(loc):
+    """the IndexLocations inside a MultiIndexLocation ([] for every other locator)"""
+    from armi.reactor.grids import MultiIndexLocation
+
+    return list(loc) if isinstance(loc, MultiIndexLocation) else []
+
+
+def flag_bits(o):
+    """integer bit pattern of the flags stored on an object (0 = none)"""
+    try:
+        f = o.p.flags
+    except Exception:
+        return 0
+    return int(f) if f is not None else 0
+
+
+def flag_match(o, spec, exact):
+    """Independent of armi's hasFlags; written from the bit semantics it documents: None matches everything unless exact; a list is
+    'any of'; an object without flags matches nothing; otherwise all bits of the spec must be set, and no others when exact."""
+    if spec is None:
+        return not exact
+    if isinstance(spec, (list, tuple)):
+        return any(flag_match(o, s_, exact) for s_ in spec)
+    have, want = flag_bits(o), int(spec)
+    if have == 0:
+        return False
+    return have == want if exact else (have & want) == want
+
+
+def pick_spec(rng, nodes, pool):
+    """a flag spec for a query: random names, bits/bit sets actually present on the given nodes (so that exact and inexact matching
+    differ), two-flag combinations (a|b = both required) and lists (= any of)"""
+    from armi.reactor.flags import Flags
+
+    def single():
+        return Flags.fromString(rng.choice(pool))
+
+    def present():
+        cands = [f for f in (flag_bits(n) for n in nodes) if f]
+        if not cands:
+            return single()
+        f = rng.choice(cands)
+        bits = [1 << k for k in range(f.bit_length()) if (f >> k) & 1]
+        u = rng.random()
+        if u < .5:
+            return Flags(rng.choice(bits))
+        if u < .8:
+            return Flags(f)
+        return Flags(f) | single()
+
+    u = rng.random()
+    if u < .25:
+        return single()
+    if u < .7:
+        return present()
+    if u < .85:
+        return single() | single()
+    return [present(), single()]
+
+
+def spec_repr(spec):
+    return [str(s_) for s_ in spec] if isinstance(spec, (list, tuple)) else str(spec)
+
+
+TYPE_ATTR = "_c01_type"  # harness-side stamp: the type name an object was constructed with (survives copy/pickle like any attribute)
 QUERY_KINDS = ["children", "deep", "generation", "predicate", "deep-predicate", "flags", "flags-exact", "type", "components", "components-flags", "ancestor", "contains-index", "iter"]
 
 
@@ -185,25 +273,46 @@ def check_traversal(rec, rng, root, w):
             ref = [o for o in (walk(node) if deep else list(node)) if pred(o)]
             ok = same_set(got, ref) and sibling_order_ok(got) and (deep or same_objects(got, ref))
         elif kind in ("flags", "flags-exact"):
-            spec = Flags.fromString(rng.choice(pool)) if rng.random() < .7 else [Flags.fromString(rng.choice(pool)), Flags.fromString(rng.choice(pool))]
+            spec = pick_spec(rng, list(node), pool)
             exact = kind == "flags-exact"
+            w["spec"], w["exact"] = spec_repr(spec), exact
             got = node.getChildrenWithFlags(spec, exactMatch=exact)
-            ref = [o for o in list(node) if o.hasFlags(spec, exact)]
+            ref = [o for o in list(node) if flag_match(o, spec, exact)]
             ok = same_objects(got, ref) and same_objects(list(node.iterChildrenWithFlags(spec, exact)), ref)
+            if ref and len(ref) < len(node):
+                rec.hit("flags.query-selects-proper-subset")
         elif kind == "type":
-            if any("type" not in o.p for o in list(node)):
-                rec.skip("type-name query on generic composites without a type parameter")
+            # reference: the type name the object was given when it was constructed (by the harness, or by the generated
+            # blueprint), kept on the object by the harness - never armi's getType()
+            if not len(node) and node.parent is not None:
+                node = node.parent  # a leaf has nothing to select from: ask its parent instead
+                w["node"] = repr(node)
+            kids = list(node)
+            stamps = [getattr(o, TYPE_ATTR, None) for o in kids]
+            if not kids or any(s_ is None for s_ in stamps):
+                rec.skip("type-name query on children whose construction-time type name the harness does not know (generic composites, systems)")
                 return kind
-            names = [o.getType() for o in list(node)] or ["x"]
-            t = rng.choice(names + ["nonexistent"])
-            got, ref = node.getChildrenOfType(t), [o for o in list(node) if o.getType() == t]
-            ok = same_objects(got, ref)
+            t = rng.choice(stamps + ["nonexistent"])
+            w["type"] = t
+            got, ref = node.getChildrenOfType(t), [o for o, s_ in zip(kids, stamps) if s_ == t]
+            ok = same_objects(got, ref) and same_objects(list(node.iterChildrenOfType(t)), ref)
+            rec.hit("type.query-by-construction-name")
         elif kind in ("components", "components-flags"):
-            spec = None if kind == "components" else Flags.fromString(rng.choice(pool))
-            exact = rng.random() < .5
-            got = node.getComponents(spec, exact)
             everything = ([node] if isinstance(node, Component) else []) + walk(node)
-            ref = [o for o in everything if isinstance(o, Component) and o.hasFlags(spec, exact)]
+            comps = [o for o in everything if isinstance(o, Component)]
+            exact = rng.random() < .5
+            if kind == "components":
+                spec = None
+                if exact:
+                    # getComponents says "exact has no impact if typeSpec is None", hasFlags says "None matches no object if
+                    # exact": the two documents disagree, so this combination is outside the judged domain
+                    rec.skip("getComponents(None, exact=True): getComponents and hasFlags document different results")
+                    return kind
+            else:
+                spec = pick_spec(rng, comps, pool)
+            w["spec"], w["exact"] = spec_repr(spec), exact
+            got = node.getComponents(spec, exact)
+            ref = [o for o in comps if flag_match(o, spec, exact)]
             ok = same_objects(got, ref) and same_objects(list(node.iterComponents(spec, exact)), ref)
         elif kind == "ancestor":
             chain = []
@@ -217,10 +326,18 @@ def check_traversal(rec, rng, root, w):
             got = node.getAncestor(pred)
             got2 = node.getAncestorAndDistance(pred)
             ok = (got is (ref[0] if ref else None)) and ((got2 is None and ref is None) or (got2 is not None and ref is not None and got2[0] is ref[0] and got2[1] == ref[1]))
-            spec = Flags.fromString(rng.choice(pool))
-            refF = next((o for o in chain if o.hasFlags(spec)), None)
-            ok = ok and node.getAncestorWithFlags(spec) is refF
-            ref, got = (ref, refF), (got, got2)
+            spec = pick_spec(rng, chain, pool)
+            exact = rng.random() < .5
+            w["spec"], w["exact"] = spec_repr(spec), exact
+            refF = next((o for o in chain if flag_match(o, spec, exact)), None)
+            gotF = node.getAncestorWithFlags(spec, exactMatch=exact) if (exact or rng.random() < .5) else node.getAncestorWithFlags(spec)
+            ok = ok and gotF is refF
+            rec.hit("ancestor.flags")
+            if refF is not next((o for o in chain if flag_match(o, spec, not exact)), None):
+                rec.hit("ancestor.flags-exactness-decides")
+                if refF is not chain[0] and not flag_match(chain[0], spec, False):
+                    rec.hit("ancestor.flags-exactness-decides-above-self")
+            ref, got = (ref, refF), (got, got2, gotF)
         else:  # contains / index
             kids = list(node)
             other = rng.choice(nodes)
@@ -281,6 +398,8 @@ def all_parts(node):
             ids[id(n.spatialGrid)] = ("grid", n)
         if n.spatialLocator is not None:
             ids[id(n.spatialLocator)] = ("locator", n)
+            for sl in sub_locations(n.spatialLocator):
+                ids[id(sl)] = ("locator", n)
         m = getattr(n, "material", None)
         if m is not None:
             ids[id(m)] = ("material", n)
@@ -299,6 +418,20 @@ def check_copy(rec, orig, cp, how, w):
         if shared:
             kinds = sorted({a[i][0] for i in shared})
             rec.violation("copy/%s/shares-%s" % (how, "+".join(kinds)), "copy shares %d objects with the original (%s), e.g. of %r" % (len(shared), kinds, a[next(iter(shared))][1]), w)
+        # a reactor's shortcuts to its own children (r.core, r.excore[name]) must lead to the copy's children
+        ex_o, ex_c = getattr(orig, "excore", None), getattr(cp, "excore", None)
+        if isinstance(ex_o, dict):
+            rec.hit("copy.reactor-links")
+            kids_o, kids_c = list(orig), list(cp)
+            for nm_, s_o in dict.items(ex_o):
+                idx = next((j for j, k in enumerate(kids_o) if k is s_o), None)
+                if idx is not None and (not isinstance(ex_c, dict) or dict.get(ex_c, nm_) is not kids_c[idx]):
+                    rec.violation("copy/%s/reactor-excore-not-relinked" % how, "the original reactor reaches its child %r as excore[%r]; the copy's excore collection holds %s"
+                                  % (s_o, nm_, sorted(dict.keys(ex_c)) if isinstance(ex_c, dict) else repr(ex_c)), w)
+                    break
+            idx = next((j for j, k in enumerate(kids_o) if k is getattr(orig, "core", None)), None)
+            if idx is not None and getattr(cp, "core", None) is not kids_c[idx]:
+                rec.violation("copy/%s/reactor-core-not-relinked" % how, "the copy's .core is %r, not its own child %r" % (getattr(cp, "core", None), kids_c[idx]), w)
         if cp.parent is not None:
             rec.violation("copy/%s/copy-keeps-parent" % how, "copied subtree root points at parent %r" % cp.parent, w)
         inside = {id(n) for n in [cp] + walk(cp)}
@@ -320,6 +453,47 @@ def check_copy(rec, orig, cp, how, w):
             if m is not None and getattr(m, "parent", None) is not None and id(m.parent) not in inside:
                 rec.violation("copy/%s/material-parent-outside" % how, "material of %r points at a component outside the copy" % n, w)
                 return
+        # grids at the new owner: whatever was located in its parent's grid in the original is located in the copy's grid in the
+        # copy - the locator itself and, for a multi-index locator, each of the cells it lists (pairs by position: equal shape)
+        pairs = [(orig, cp)]
+        while pairs:
+            no, nc = pairs.pop()
+            ko_, kc_ = list(no), list(nc)
+            pairs.extend(zip(ko_, kc_))
+            if no.spatialGrid is None:
+                continue
+            for ko, kc in zip(ko_, kc_):
+                lo, lc = ko.spatialLocator, kc.spatialLocator
+                if lo is None or getattr(lo, "grid", None) is not no.spatialGrid:
+                    continue
+                rec.hit("copy.locator-relinked")
+                if lc is None or getattr(lc, "grid", None) is not nc.spatialGrid:
+                    rec.violation("copy/%s/locator-not-relinked" % how, "%r sat in the grid of its parent %r; in the copy its locator %r belongs to %s"
+                                  % (ko, no, lc, "no grid" if getattr(lc, "grid", None) is None else "the grid of %r" % lc.grid.armiObject), w)
+                    return
+                so, sc = sub_locations(lo), sub_locations(lc)
+                if type(lo) is not type(lc) or len(so) != len(sc) or (not so and (lo.i, lo.j, lo.k) != (lc.i, lc.j, lc.k)):
+                    rec.violation("copy/%s/locator-differs" % how, "%r is located at %r (%d cells), its copy at %r (%d cells)" % (ko, lo, len(so), lc, len(sc)), w)
+                    return
+                if so:
+                    rec.hit("copy.multi-location-relinked")
+                    for x, y in zip(so, sc):
+                        if (x.i, x.j, x.k) != (y.i, y.j, y.k):
+                            rec.violation("copy/%s/locator-differs" % how, "cell %r of the multi-index locator of %r became %r in the copy" % (x, ko, y), w)
+                            return
+                        if x.grid is no.spatialGrid and y.grid is not nc.spatialGrid:
+                            alias = next((m for m in [orig] + walk(orig) if m.parent is not no and any(s_ is x for s_ in sub_locations(m.spatialLocator))), None)
+                            if alias is not None:
+                                # root cause is the removal defect: the cell object of this grid is also listed by the locator of an
+                                # object that was removed from this block and now lives elsewhere, so the copy of that other owner
+                                # re-associates the shared cell with ITS grid. Same mechanism, same key.
+                                rec.violation("tree/removed-object-keeps-grid-location/multi-sub-locations",
+                                              "consequence in a %s: %r was removed from %r and now belongs to %r, but its locator still lists the cell objects of the old grid; "
+                                              "in the copy the cell %r of %r therefore belongs to the grid of %r" % (how, alias, no, alias.parent, y, kc, y.grid.armiObject if y.grid is not None else None), w)
+                                return
+                            rec.violation("copy/%s/multi-sub-location-not-relinked" % how, "cell %r of the multi-index locator of %r belongs to %s in the copy"
+                                          % (y, kc, "no grid" if y.grid is None else "the grid of %r" % y.grid.armiObject), w)
+                            return
     except Exception as e:
         rec.crash("copy-check/" + how, e, w)
 
@@ -368,7 +542,54 @@ def new_component(rng):
     COUNTER[0] += 1
     nm = rng.choice(["fuel", "clad", "wire", "bond", "liner", "shield"])
     od = rng.uniform(.2, 1.0)
-    return components.Circle("%s%d" % (nm, COUNTER[0]), rng.choice(["HT9", "UZr", "Sodium", "B4C"]), 25.0, 25.0, od=od, id=od * rng.uniform(0, .8), mult=rng.choice([1, 7, 19]))
+    c = components.Circle("%s%d" % (nm, COUNTER[0]), rng.choice(["HT9", "UZr", "Sodium", "B4C"]), 25.0, 25.0, od=od, id=od * rng.uniform(0, .8), mult=rng.choice([1, 7, 19]))
+    setattr(c, TYPE_ATTR, "%s%d" % (nm, COUNTER[0]))
+    return c
+
+
+def stamp_block(b, bspec, tname):
+    """remember the type names given at construction: the block's type, and for each component the name it was constructed with
+    (which must be one of the names in the block design; Reactor.sort may have re-ordered the components since)"""
+    setattr(b, TYPE_ATTR, tname)
+    names = {cs["name"] for cs in bspec["components"]}
+    for c in list(b):
+        if c.name in names:
+            setattr(c, TYPE_ATTR, c.name)
+    return b
+
+
+def pin_grid(rec, b, parent_grid=None):
+    """give the block a pin grid the way armi does (multi-index locators for mult>1 components); armi declines for blocks that
+    are not 'mult 1 or N filling whole hex rings' (ValueError/NotImplementedError, as Assembly.orientBlocks expects)"""
+    try:
+        b.autoCreateSpatialGrids(parent_grid)
+    except (ValueError, NotImplementedError):
+        rec.add("pin grid declined by armi (multiplicities not 1/N or not whole rings)", 1)
+        return False
+    rec.add("blocks given a pin grid", 1)
+    return True
+
+
+def place_in_block(rng, b, c):
+    """valid usage: a component that joins a block with a pin grid gets a locator of that grid, built like armi's own builders do:
+    a multi-index locator over the first `mult` cells for mult>1, the centre otherwise"""
+    from armi.reactor import grids
+    from vlib import gen
+
+    g = b.spatialGrid
+    if g is None:
+        return
+    try:
+        mult = int(c.getDimension("mult") or 1)
+    except Exception:
+        mult = 1
+    if mult > 1:
+        rings = next(r_ for r_ in range(1, 12) if 1 + 3 * r_ * (r_ - 1) >= mult)
+        c.spatialLocator = g[[(i, j, 0) for (i, j) in gen.hex_cells(rings)[:mult]]]
+    elif rng.random() < .5:
+        c.spatialLocator = grids.CoordinateLocation(0.0, 0.0, 0.0, g)
+    else:
+        c.spatialLocator = g[0, 0, 0]
 
 
 def run_shard(spec, rec):
@@ -383,21 +604,63 @@ def run_shard(spec, rec):
             rec.crash("history(harness?)/" + fam, e, {"family": fam, "case": i})
 
 
-def make_root(rng, fam):
+def make_root(rec, rng, fam):
     from vlib import gen
 
     if fam == "generic":
         return new_generic(rng), None
     if fam == "block":
         bs = gen.pin_block_spec(rng, kind=rng.choice(["fuel", "control", "shield", "plenum"])) if rng.random() < .7 else gen.generic_block_spec(rng)
-        return gen.build_block(bs, 10.0), None
+        b = stamp_block(gen.build_block(bs, 10.0), bs, bs.get("kind", "fuel"))
+        if rng.random() < .75:
+            pin_grid(rec, b)
+        return b, None
     if fam == "assembly":
         pitch = rng.uniform(8, 14)
         nb = rng.randint(1, 5)
-        return gen.build_assembly([gen.pin_block_spec(rng, kind=rng.choice(["fuel", "shield", "control"]), pitch=pitch, npins=rng.choice([1, 7, 19])) for _ in range(nb)], [rng.uniform(5, 30) for _ in range(nb)]), pitch
+        bss = [gen.pin_block_spec(rng, kind=rng.choice(["fuel", "shield", "control"]), pitch=pitch, npins=rng.choice([1, 7, 19])) for _ in range(nb)]
+        a = gen.build_assembly(bss, [rng.uniform(5, 30) for _ in range(nb)])
+        setattr(a, TYPE_ATTR, "fuel")
+        for b, bs in zip(list(a), bss):
+            stamp_block(b, bs, bs.get("kind", "fuel"))
+        if rng.random() < .7:
+            a.orientBlocks(None)  # armi's own way of giving every block of an assembly its pin grid
+            rec.add("blocks given a pin grid", sum(1 for b in a if b.spatialGrid is not None))
+        return a, pitch
     cs_ = gen.core_spec(rng, rings=rng.randint(2, 3), symmetry=rng.choice(["third periodic", "full"]), ndesigns=rng.randint(1, 2), nblocks=rng.randint(1, 3))
-    r, cs, bp, text = gen.build_reactor(cs_)
+    track = rng.random() < .6
+    r, cs, bp, text = gen.build_reactor(cs_, {"trackAssems": True} if track else None)
+    r._c01_track = track
+    rec.add("reactors that track discharged assemblies" if track else "reactors that delete discharged assemblies", 1)
+    stamp_reactor(r, cs_)
     return r, None
+
+
+def stamp_reactor(r, cspec):
+    """type names from the generated blueprint: assembly design by the specifier placed at the assembly's (i, j), block design by
+    axial index, component name by position in the block design"""
+    by_spec = {d["specifier"]: (name, d) for name, d in cspec["assemblies"].items()}
+    contents = cspec["grids"]["core"]["contents"]
+    for a in list(r.core):
+        loc = a.spatialLocator
+        sp = contents.get((loc.i, loc.j))
+        if sp is None or len(list(a)) != len(by_spec[sp][1]["blocks"]):
+            continue
+        name, d = by_spec[sp]
+        setattr(a, TYPE_ATTR, name)
+        for b, bn in zip(list(a), d["blocks"]):
+            if True:
+                stamp_block(b, cspec["blocks"][bn], bn)
+
+
+def spent_fuel_pool(core):
+    r = core.parent
+    return None if r is None else next((x for x in list(r) if type(x).__name__ == "SpentFuelPool"), None)
+
+
+def kji(o):
+    loc = o.spatialLocator
+    return (loc.k, loc.j, loc.i)
 
 
 def one_history(rec, rng, fam, nops, case):
@@ -405,7 +668,7 @@ def one_history(rec, rng, fam, nops, case):
     from armi.reactor.components import Component
     from vlib import gen
 
-    root, aux = make_root(rng, fam)
+    root, aux = make_root(rec, rng, fam)
     roots = [root]
     detached = []
     hist = []
@@ -422,7 +685,9 @@ def one_history(rec, rng, fam, nops, case):
             from armi.reactor.reactors import Core
 
             cores = [n for n in conts if isinstance(n, Core)]
-            target = rng.choice(cores) if cores and rng.random() < .6 else rng.choice(conts)
+            pools = [n for n in conts if type(n).__name__ == "SpentFuelPool" and len(n)]
+            u = rng.random()
+            target = rng.choice(pools) if pools and u < .12 else rng.choice(cores) if cores and u < .65 else tree if u >= .93 else rng.choice(conts)
         else:
             target = rng.choice(conts) if conts else tree
         kids = list(target)
@@ -433,13 +698,18 @@ def one_history(rec, rng, fam, nops, case):
                 continue
             from armi.reactor.reactors import Core, Reactor
 
-            if isinstance(target, Reactor) or type(target).__name__ in ("SpentFuelPool", "ExcoreStructure"):
-                if op in ("deepcopy",) and isinstance(target, Reactor) and rng.random() < .5 and len(roots) < 3:
-                    cp = copy.deepcopy(target)
-                    hist.append("deepcopy(reactor)")
-                    check_copy(rec, target, cp, "deepcopy", w)
+            if type(target).__name__ == "SpentFuelPool":
+                model = pool_op(rec, rng, target, op, hist, detached, roots, w)
+            elif isinstance(target, Reactor) or type(target).__name__ in ("ExcoreStructure",):
+                if op in ("deepcopy", "pickle", "add", "readd") and isinstance(target, Reactor) and len(roots) < 3:
+                    how = "pickle" if op in ("pickle", "readd") else "deepcopy"
+                    cp = copy.deepcopy(target) if how == "deepcopy" else pickle.loads(pickle.dumps(target))
+                    hist.append("%s(reactor)" % how)
+                    check_copy(rec, target, cp, how, w)
+                    if getattr(cp, "_c01_track", None) is not getattr(target, "_c01_track", None):
+                        raise RuntimeError("harness: the tracking stamp did not survive the copy")
                     roots.append(cp)
-                elif op == "sort" and isinstance(target, Reactor):
+                elif op in ("sort", "special") and isinstance(target, Reactor):
                     before = {id(n) for n in walk(target)}
                     target.sort()
                     hist.append("sort(reactor)")
@@ -545,6 +815,11 @@ def generic_op(rec, rng, t, op, hist, detached, roots, w, tree):
             if b < a:
                 rec.violation("sort/not-ordered", "after sort %r precedes %r although it compares greater" % (a, b), w)
                 break
+        if len({id(getattr(k.spatialLocator, "grid", None)) for k in kids}) <= 1:
+            # documented order: by location, K then J then I, among objects of one grid (an off-grid coordinate location counts as
+            # the origin); list.sort is stable, so children in the same cell keep their relative order
+            rec.hit("sort.order-by-location")
+            return "ordered", sorted(kids, key=lambda k: (0, 0, 0) if type(k.spatialLocator).__name__ == "CoordinateLocation" else kji(k))
         return "set", kids
     if op in ("deepcopy", "pickle") and len(roots) < 4:
         cp = copy.deepcopy(t) if op == "deepcopy" else pickle.loads(pickle.dumps(t))
@@ -559,6 +834,8 @@ def block_op(rec, rng, b, op, hist, detached, roots, w, gen):
     kids = list(b)
     if op in ("add", "insert"):
         c = new_component(rng)
+        if rng.random() < .6:
+            place_in_block(rng, b, c)
         if op == "add":
             b.add(c)
             hist.append("block.add")
@@ -582,6 +859,8 @@ def block_op(rec, rng, b, op, hist, detached, roots, w, gen):
             # a block holds at most one DerivedShape (it is "whatever the others leave"; two of them define each other and armi
             # recurses without end when asked for a volume): not a model the property speaks about
             raise SkipOp()
+        if rng.random() < .6:
+            place_in_block(rng, b, c)
         b.add(c)
         detached[:] = [d for d in detached if d is not c]
         hist.append("block.re-add-elsewhere")
@@ -590,14 +869,23 @@ def block_op(rec, rng, b, op, hist, detached, roots, w, gen):
         keep = rng.sample(kids, rng.randint(1, len(kids)))
         rng.shuffle(keep)
         items = keep + [new_component(rng) for _ in range(rng.randint(0, 2))]
+        for c in items[len(keep):]:
+            if rng.random() < .6:
+                place_in_block(rng, b, c)
         b.setChildren(items)
+        for c in keep:  # removeAll detached the kept children's locators: re-place them like a builder would
+            place_in_block(rng, b, c)
         detached.extend(k for k in kids if not any(k is x for x in keep))
         hist.append("block.setChildren")
         return "ordered", items
     if op == "special":
-        other = gen.build_block(gen.pin_block_spec(rng, kind=rng.choice(["control", "fuel"])), 10.0)
+        obs = gen.pin_block_spec(rng, kind=rng.choice(["control", "fuel"]))
+        other = stamp_block(gen.build_block(obs, 10.0), obs, obs["kind"])
+        if rng.random() < .5:
+            pin_grid(rec, other)
         n_other = [c.name for c in other]
         b.replaceBlockWithBlock(other)
+        setattr(b, TYPE_ATTR, obs["kind"])  # the block takes the replacement's parameters, type name included
         detached.extend(kids)
         hist.append("replaceBlockWithBlock")
         got = list(b)
@@ -622,7 +910,11 @@ def assembly_op(rec, rng, a, op, hist, detached, roots, w, gen, pitch):
     pitch = pitch or (kids[0].getPitch() if kids else 10.0)
 
     def new_block():
-        return gen.build_block(gen.pin_block_spec(rng, kind=rng.choice(["fuel", "shield"]), pitch=pitch, npins=rng.choice([1, 7])), rng.uniform(5, 20))
+        nbs = gen.pin_block_spec(rng, kind=rng.choice(["fuel", "shield"]), pitch=pitch, npins=rng.choice([1, 7]))
+        nb = stamp_block(gen.build_block(nbs, rng.uniform(5, 20)), nbs, nbs["kind"])
+        if rng.random() < .6:
+            pin_grid(rec, nb)
+        return nb
 
     if op == "add":
         b = new_block()
@@ -683,20 +975,45 @@ def assembly_op(rec, rng, a, op, hist, detached, roots, w, gen, pitch):
 
 
 def core_op(rec, rng, core, op, hist, detached, roots, w):
+    """The core's child list is judged in order: Core.add appends, removeAssembly takes one out, sort orders by location (K, J, I)."""
     from armi.reactor import assemblies
 
     kids = list(core)
-    if op in ("remove",) and len(kids) > 1:
+    if op in ("remove", "special") and len(kids) > 1:
         a = rng.choice(kids)
-        discharge = rng.random() < .5
+        discharge = rng.random() < .6
+        sfp = spent_fuel_pool(core)
+        track = getattr(core.parent, "_c01_track", None)
+        if track is None:
+            raise SkipOp()
+        pool_before = list(sfp) if sfp is not None else []
+        reachable = sfp is not None and dict.get(core.parent.excore, "sfp") is sfp
         core.removeAssembly(a, discharge=discharge)
-        hist.append("core.removeAssembly(discharge=%s)" % discharge)
-        if not discharge:
-            detached.append(a)
-        else:
+        hist.append("core.removeAssembly(discharge=%s,tracked=%s)" % (discharge, track))
+        if discharge and track and sfp is not None and not reachable:
+            # this reactor is a copy that lost the excore entry of its pool (judged when the copy was made, key
+            # copy/deepcopy/reactor-excore-not-relinked): armi cannot find the pool, what it does then is not judged as a move
+            rec.skip("discharge in a reactor whose excore collection does not know its own pool (defect of the copy, reported there)")
             if a.parent is None:
                 detached.append(a)
-        return "set", [k for k in kids if k is not a]
+        elif discharge and track and sfp is not None:
+            # a MOVE: the pool lists the assembly (appended), is its parent, and holds it in a cell of the pool's own grid
+            rec.hit("discharge.move-to-sfp")
+            pool = list(sfp)
+            if not same_objects(pool, pool_before + [a]):
+                rec.violation("discharge/sfp-children-differ", "after discharging %r the pool holds %s, intended %s" % (a, short(pool), short(pool_before + [a])), w)
+            elif a.parent is not sfp:
+                rec.violation("discharge/assembly-parent-not-sfp", "discharged %r is listed by the pool but its parent is %r" % (a, a.parent), w)
+            elif sfp.spatialGrid is not None:
+                loc = a.spatialLocator
+                if loc is None or loc.grid is not sfp.spatialGrid:
+                    rec.violation("discharge/locator-not-in-sfp-grid", "discharged %r holds locator %r that is not a cell of the pool's grid" % (a, loc), w)
+                elif any((loc.i, loc.j, loc.k) == (o.spatialLocator.i, o.spatialLocator.j, o.spatialLocator.k) for o in pool_before):
+                    rec.violation("discharge/sfp-location-shared", "discharged %r was put into pool cell %r which is already taken" % (a, loc), w)
+        else:
+            detached.append(a)  # taken out of the model: check_global demands no parent and a detached location
+        rec.hit("core.order")
+        return "ordered", [k for k in kids if k is not a]
     if op in ("add", "readd", "insert"):
         cands = [d for d in detached if d.parent is None and isinstance(d, assemblies.Assembly)]
         occupied = {tuple(k.spatialLocator.getCompleteIndices()[:2]) for k in kids}
@@ -719,16 +1036,46 @@ def core_op(rec, rng, core, op, hist, detached, roots, w):
             how += "+makeUnique"
         core.add(a, core.spatialGrid[ij[0], ij[1], 0])
         hist.append(how)
-        return "set", kids + [a]
+        loc = a.spatialLocator
+        if loc.grid is not core.spatialGrid or (loc.i, loc.j) != ij:
+            rec.violation("core/added-assembly-not-at-its-location", "assembly added at %s holds locator %r (core grid: %s)" % (ij, loc, loc.grid is core.spatialGrid), w)
+        rec.hit("core.order")
+        return "ordered", kids + [a]
     if op == "sort":
         core.sort()
         hist.append("core.sort")
-        return "set", kids
+        rec.hit("core.order")
+        return "ordered", sorted(kids, key=kji)  # cells are distinct, so the documented K, J, I order is total
     if op in ("deepcopy", "pickle"):
         a = rng.choice(kids)
         cp = copy.deepcopy(a) if op == "deepcopy" else pickle.loads(pickle.dumps(a))
         hist.append("assembly-in-core." + op)
         check_copy(rec, a, cp, op, w)
         detached.append(cp)
-        return "set", kids
+        return "ordered", kids
+    raise SkipOp()
+
+
+def pool_op(rec, rng, sfp, op, hist, detached, roots, w):
+    """the spent fuel pool: take an assembly out for good (it can re-enter a core later), sort, copy one"""
+    kids = list(sfp)
+    if not kids:
+        raise SkipOp()
+    if op in ("remove", "readd"):
+        a = rng.choice(kids)
+        sfp.remove(a)
+        detached.append(a)
+        hist.append("pool.remove")
+        return "ordered", [k for k in kids if k is not a]
+    if op == "sort":
+        sfp.sort()
+        hist.append("pool.sort")
+        return "ordered", sorted(kids, key=kji)
+    if op in ("deepcopy", "pickle"):
+        a = rng.choice(kids)
+        cp = copy.deepcopy(a) if op == "deepcopy" else pickle.loads(pickle.dumps(a))
+        hist.append("assembly-in-pool." + op)
+        check_copy(rec, a, cp, op, w)
+        detached.append(cp)
+        return "ordered", kids
     raise SkipOp()
